@@ -55,7 +55,9 @@ NAMES = [b"dump.bz2", b"x.xz", b"page.html.br", b"plain.txt", b"sp ace.txt", b"a
          # names that look like URLs with a scheme, a query or a fragment to anything that parses them as one
          b"data:logo.gif", b"Data:report.html", b"x:.html", b"re:faq#1.html", b"http:page.html", b"what?.gif", b"semi;colon.html", b"mailto:me@x.txt",
          # extensions that only a site's own tables know
-         b"meeting.pgnote", b"blob.pgdat"]
+         b"meeting.pgnote", b"blob.pgdat",
+         # names near the file system's limit (255 bytes): name + ".abstract" / ".3d" no longer fits, the name itself does
+         b"L" * 243 + b".txt", b"M" * 249 + b".gif", b"N" * 251 + b".txt"]
 
 PROTOS = ["gopher", "gopherp", "http", "http_head", "wap", "gemini", "spartan", "sgopher", "sgopherp", "https"]
 
@@ -230,6 +232,15 @@ def _pack(name, data):
 
 
 def _make_world(handlers, spec=None):
+    if handlers == "symroot":
+        # the configured document root is a symbolic link (/var/gopher -> /srv/data/gopher), inside a linked directory
+        d = rig.fresh_dir("c04sym")
+        os.makedirs(os.path.join(d, "srv", "data", "gopher"))
+        os.symlink(os.path.join("srv", "data"), os.path.join(d, "var"))
+        os.symlink("gopher", os.path.join(d, "var", "public"))
+        w = rig.World({}, handlers="default", cachetime=0, root=os.path.join(d, "var", "public"), tag="c04")
+        w.extra_dir = d
+        return w
     if handlers != "variant":
         return rig.World(spec or {}, handlers=handlers, cachetime=0, tag="c04")
     d = rig.fresh_dir("c04mime")
@@ -282,6 +293,9 @@ def _shard(shard, seed, tier):
     handlers, items = shard
     filler = seed % 251
     w = _make_world(handlers)
+    label = handlers
+    if handlers == "symroot":
+        handlers = "default"
     try:
         _wap_prefix_dir(w, handlers, part)
         for cls, size, name in items:
@@ -299,16 +313,18 @@ def _shard(shard, seed, tier):
                 r, bad = fetch_and_judge(w, handlers, name, data, proto, get_headers)
                 part.evaluations += 1
                 part.transitions += len(r.writes)
-                part.state(handlers, cls, size, name, proto)
-                part.outcome(handlers, proto, expected_type(name, handlers), size % BLOCK == 0, tuple(b[0] for b in bad))
+                part.state(label, cls, size, name, proto)
+                part.outcome(label, proto, expected_type(name, handlers), size % BLOCK == 0, tuple(b[0] for b in bad))
                 for c, det in bad:
-                    part.violation("%s|%s|%s|%d|%s|%s" % (handlers, proto, cls, size, ascii(name), c), det,
-                                   {"kind": "doc", "handlers": handlers, "cls": cls, "size": size, "name": name, "proto": proto, "filler": filler})
+                    part.violation("%s|%s|%s|%d|%s|%s" % (label, proto, cls, size, ascii(name), c), det,
+                                   {"kind": "doc", "handlers": label, "cls": cls, "size": size, "name": name, "proto": proto, "filler": filler})
             os.unlink(p)
             if len(part.samples) < 2:
                 part.sample({"file": name, "class": cls, "size": size, "protocols": PROTOS, "handlers": handlers})
     finally:
         w.destroy()
+        if getattr(w, "extra_dir", None):
+            rig.rmtree(w.extra_dir)
     return part
 
 
@@ -424,9 +440,11 @@ def replay(case):
             gh = None
             if case["proto"] == "http_head":
                 gh = _headers_of(w.serve(*rig.request("http", b"/" + name)).out)
-            r, bad = fetch_and_judge(w, case["handlers"], name, data, case["proto"], gh)
+            r, bad = fetch_and_judge(w, "default" if case["handlers"] == "symroot" else case["handlers"], name, data, case["proto"], gh)
         finally:
             w.destroy()
+            if getattr(w, "extra_dir", None):
+                rig.rmtree(w.extra_dir)
         return bad[0] if bad else None
     _install_short()
     data = content("cycle", case["size"], case["filler"])
@@ -646,6 +664,7 @@ def run(ck):
     vitems = [(cls, size, name) for cls, size, name in items if cls in ("lf", "cycle") and size in (5, 4097, 300, 8192)]
     for ch in core.chunks(vitems, 4):
         shards.append(("variant", ch))
+        shards.append(("symroot", ch))
     ck.pmap(_shard, shards)
     bound = 2 if ck.tier == "quick" else 3
     ck.pmap(_shard_live, [("live", "thread"), ("live", "fork")])
